@@ -67,6 +67,9 @@ namespace verif::e2 {
     }
     inline void unlock() { g_lock.store(false, std::memory_order_release); }
 
+    // a harness may install its own site filter (default: the scheduler-protocol filter below)
+    inline bool (*g_filter)(char const*) = nullptr;
+
     inline bool wanted(char const* s)
     {
         // scheduler protocol sites + harness notes; everything else (sl.*, cv.*, sem.* ...) is dropped
@@ -105,7 +108,7 @@ namespace verif::e2 {
     inline void sink(int phase, char const* site, void const* obj, std::uint64_t a,
         std::uint64_t b) noexcept
     {
-        if (!g_enabled.load(std::memory_order_relaxed) || !wanted(site)) return;
+        if (!g_enabled.load(std::memory_order_relaxed) || !(g_filter ? g_filter(site) : wanted(site))) return;
         int os = os_id();
         if (phase == 0)
         {
